@@ -46,7 +46,22 @@ template <class Table> void dump_cells(const Table &t, std::ostream &o) {
   for (const Entry *i = t.RawBegin(); i != t.RawEnd(); ++i) o << ' ' << std::hex << i->key << ':' << i->value;
 }
 
-template <class Table> void table_ops(Table &t, std::istringstream &in, std::ostream &o) {
+struct NoReloc { template <class T> void operator()(T &) const {} };
+// ProbingHashTable::Relocate: the table's memory moves to another address (what BinaryFormat does when a mapping grows or is re-made);
+// the old memory is scribbled over so that a table that still points into it shows
+template <class Table> struct MoveTable {
+  Entry *cur; size_t buckets; std::vector<std::vector<Entry> > *keep;
+  void operator()(Table &t) {
+    keep->push_back(std::vector<Entry>(buckets));
+    Entry *to = &keep->back()[0];
+    memcpy(to, cur, buckets * sizeof(Entry));
+    t.Relocate(to);
+    memset(cur, 0xee, buckets * sizeof(Entry));
+    cur = to;
+  }
+};
+
+template <class Table, class Reloc> void table_ops(Table &t, std::istringstream &in, std::ostream &o, Reloc reloc) {
   std::string op;
   bool first = true;
   while (in >> op) {
@@ -64,6 +79,7 @@ template <class Table> void table_ops(Table &t, std::istringstream &in, std::ost
       } else if (kind == 'q') {
         typename Table::ConstIterator it;
         if (t.Find(k, it)) o << std::hex << it->value; else o << "-";
+      } else if (kind == 'r') { reloc(t); o << "r";
       } else if (kind == 'm') {     // UnsafeMutableFind
         typename Table::MutableIterator it;
         if (t.UnsafeMutableFind(k, it)) o << std::hex << it->value; else o << "-";
@@ -131,13 +147,14 @@ int main() {
       std::string p, b; in >> p >> b; size_t buckets = hx(b);
       std::vector<Entry> mem(buckets); memset(&mem[0], 0, buckets * sizeof(Entry));
       try {
-        if (p == "P") { util::ProbingHashTable<Entry, util::IdentityHash, std::equal_to<uint64_t>, util::Power2Mod> t(&mem[0], buckets * sizeof(Entry)); table_ops(t, in, o); }
-        else { util::ProbingHashTable<Entry, util::IdentityHash> t(&mem[0], buckets * sizeof(Entry)); table_ops(t, in, o); }
+        std::vector<std::vector<Entry> > keep; keep.reserve(64);
+        if (p == "P") { typedef util::ProbingHashTable<Entry, util::IdentityHash, std::equal_to<uint64_t>, util::Power2Mod> T; T t(&mem[0], buckets * sizeof(Entry)); MoveTable<T> mv = { &mem[0], buckets, &keep }; table_ops(t, in, o, mv); }
+        else { typedef util::ProbingHashTable<Entry, util::IdentityHash> T; T t(&mem[0], buckets * sizeof(Entry)); MoveTable<T> mv = { &mem[0], buckets, &keep }; table_ops(t, in, o, mv); }
       } catch (const util::ProbingSizeException &e) { o << "ctor-throw"; }
     } else if (cmd == "AP") {
       std::string init, b; in >> init >> b;
       util::AutoProbing<Entry, util::IdentityHash> t(hx(init));
-      table_ops(t, in, o);
+      table_ops(t, in, o, NoReloc());
     } else if (cmd == "SU" || cmd == "BS" || cmd == "S64") {
       std::string k, x; in >> k; uint64_t key = hx(k);
       std::vector<uint64_t> a; while (in >> x) a.push_back(hx(x));
